@@ -104,6 +104,20 @@ def odsRowsOf : List Xml → Option (Option (List (List (Option Str))))
     | some none, _ => some none
     | _, some none => some none
 
+mutual
+/-- `_ods_table_rows`: the `table:table-row` elements below a table in document order, also those inside
+`table:table-header-rows`, `table:table-rows` and `table:table-row-group` (any depth) -/
+def tableRowsOf : Xml → List Xml
+  | .node tag attrs text children tail =>
+    if tag == "table:table-row" then [.node tag attrs text children tail]
+    else if tag == "table:table-header-rows" || tag == "table:table-row-group" || tag == "table:table-rows" then tableRowsIn children
+    else []
+
+def tableRowsIn : List Xml → List Xml
+  | [] => []
+  | x :: rest => tableRowsOf x ++ tableRowsIn rest
+end
+
 /-- `list(ods_rows(path, sheet))` given the parsed content root (`none` = the archive or the XML
 could not be read: data-format error).  A bad repeat count in a later row only fails when the
 generator gets there; for `list(...)` that is still a data-format error. -/
@@ -117,7 +131,7 @@ def odsRows (root : Option Xml) (sheet : Nat) : OdsResult :=
     else match tables[sheet - 1]? with
       | none => .formatError
       | some t =>
-        match odsRowsOf (t.childrenTagged "table:table-row") with
+        match odsRowsOf (tableRowsIn t.children) with
         | none => .unsupported
         | some none => .formatError
         | some (some rows) => .rows rows
